@@ -143,19 +143,26 @@ def resize (s : Scr) (ws : Option (Int × Int)) : Scr :=
 def «show» (c : DrawCfg) (s : Scr) (ws : Option (Int × Int)) : Scr × List Cmd :=
   if s.fini then (s, []) else draw c (s.resize ws)
 
+/-- `t.cx = -1; t.cy = -1` -/
+def forgetCursor (s : Scr) : Scr := { s with cx := -1, cy := -1 }
+
+/-- what Sync does before drawing: forget the cursor, resize, request a clear, invalidate (tscreen.go:1902-1907) -/
+def prepSync (s : Scr) (ws : Option (Int × Int)) : Scr :=
+  let s1 := s.forgetCursor.resize ws
+  { s1 with clear := true, cells := s1.cells.invalidate }
+
 /-- tscreen.go:1900 Sync -/
 def sync (c : DrawCfg) (s : Scr) (ws : Option (Int × Int)) : Scr × List Cmd :=
-  let s := { s with cx := -1, cy := -1 }
-  if s.fini then (s, [])
-  else
-    let s := s.resize ws
-    draw c { s with clear := true, cells := s.cells.invalidate }
+  if s.fini then (s.forgetCursor, []) else draw c (s.prepSync ws)
+
+/-- what the resize branch of mainLoop does before drawing (tscreen.go:1825-1828) -/
+def prepResize (s : Scr) (ws : Option (Int × Int)) : Scr :=
+  let s1 := s.forgetCursor.resize ws
+  { s1 with cells := s1.cells.invalidate }
 
 /-- the resize branch of mainLoop (tscreen.go:1823-1831) -/
 def onResize (c : DrawCfg) (s : Scr) (ws : Option (Int × Int)) : Scr × List Cmd :=
-  let s := { s with cx := -1, cy := -1 }
-  let s := s.resize ws
-  draw c { s with cells := s.cells.invalidate }
+  draw c (s.prepResize ws)
 
 end Scr
 end Tcell
